@@ -153,6 +153,7 @@ static int exec_log(const uscxml_ctx* c, const char* label, const char* ex) {
 static int exec_raise(const uscxml_ctx* c, const char* event) { push(iq, &iqt, event); return USCXML_ERR_OK; }
 static int exec_send(const uscxml_ctx* c, const uscxml_elem_send* s) {
 	if (s->type && strcmp(s->type, "http://www.w3.org/TR/scxml/#SCXMLEventProcessor") != 0) return err_exec();
+	if (s->delay && !depth) printf("SD %s %lu\n", s->event ? s->event : "", (unsigned long)s->delay);   /* the delay this callback is handed (the scaffold has no timers: delivered at once) */
 	{
 		ev_t** q = (s->target && strcmp(s->target, "#_internal") == 0) ? iq : eq; int* t = (q == iq) ? &iqt : &eqt; int before = *t;
 		push(q, t, s->event ? s->event : "");
